@@ -8,7 +8,7 @@
    (swarmutil.Queue): every buffer is in exactly one place, Deliver writes only
    into a buffer taken from the freelist, a buffer handed to a callback stays
    out of circulation until that callback returns, and no buffer is lost. *)
-From P2PV Require Import Lib.Base Model.Hub Proofs.HubP Model.Queue Model.QueueBuf Proofs.QueueBufP.
+From P2PV Require Import Lib.Base Model.Hub Proofs.HubP Model.Queue Model.QueueBuf Proofs.QueueBufP Proofs.QueueRefP.
 
 (* while receiver r's callback runs with deliverer d's message, d stays committed
    to r whatever else happens in the system; the only event that releases it is
@@ -66,6 +66,12 @@ Theorem C14_queue_no_slot_leak : forall cap mtu evs s os,
   length (b_free s) + length (b_queue s) = cap.
 Proof. exact no_slot_leak. Qed.
 
+(* the buffer-level model and the message-level model of the queue (C12/C13) agree
+   whenever one caller at a time uses it: same results for every operation sequence *)
+Theorem C14_queue_models_agree : forall cap mtu ops,
+  snd (bq_calls (new_bq cap mtu) ops) = snd (qrun (new_queue cap mtu) ops).
+Proof. exact fresh_queue_models_agree. Qed.
+
 Print Assumptions C14_owner_blocked_during_callback.
 Print Assumptions C14_single_reader.
 Print Assumptions C14_buffer_returned_after_callback.
@@ -73,3 +79,4 @@ Print Assumptions C14_queue_buffers_in_one_place.
 Print Assumptions C14_queue_deliver_writes_only_free.
 Print Assumptions C14_queue_busy_until_returned.
 Print Assumptions C14_queue_no_slot_leak.
+Print Assumptions C14_queue_models_agree.
